@@ -16,6 +16,44 @@ TOP = None
 MAXMONO = 96
 
 
+class Incons:
+    """Absorbing 'dimensionally inconsistent' value: a sum of monomials of different unit /
+    scale / degree classes was used where a single class is required (under a root, as a
+    divisor).  Unlike TOP (unknown) it is evidence of a defect and is reported as such."""
+    __slots__ = ("why",)
+
+    def __init__(self, why):
+        self.why = why
+
+    def __repr__(self):
+        return f"INCONSISTENT({self.why})"
+
+    def __bool__(self):
+        return True
+
+    def __iter__(self):
+        return iter(())
+
+
+def is_bad(a):
+    return isinstance(a, Incons)
+
+
+def _prop(*xs):
+    """Incons if any operand is inconsistent, else 'TOP' marker string if any is TOP, else None."""
+    for x in xs:
+        if isinstance(x, Incons):
+            return x
+    for x in xs:
+        if x is TOP:
+            return "TOP"
+    return None
+
+
+def _classes(a):
+    return sorted({f"[{' '.join(f'{k}^{v}' for k, v in m.drop(('j',)).exps) or '1'}|1e{m.dec}]" for m in a})
+
+
 class Mono:
     __slots__ = ("exps", "dec", "sign", "facs", "_h")
 
@@ -101,8 +139,8 @@ def S(*monos) -> FrozenSet[Mono]:
 
 
 def _cap(s):
-    if s is TOP:
-        return TOP
+    if s is TOP or isinstance(s, Incons):
+        return s
     if len(s) > MAXMONO:
         s = collapse(s)
         if len(s) > MAXMONO:
@@ -111,14 +149,15 @@ def _cap(s):
 
 
 def add(a, b):
-    if a is TOP or b is TOP:
-        return TOP
+    p = _prop(a, b)
+    if p is not None:
+        return TOP if p == "TOP" else p
     return _cap(a | b)
 
 
 def neg(a):
-    if a is TOP:
-        return TOP
+    if a is TOP or isinstance(a, Incons):
+        return a
     return frozenset(m.neg() for m in a)
 
 
@@ -129,8 +168,8 @@ def sub(a, b):
 def collapse(a):
     """One monomial per (exponents, decimal) class: factors are united, the sign is kept when all
     members agree.  Loses which factors occur together, keeps dimension / degree / scale."""
-    if a is TOP:
-        return TOP
+    if a is TOP or isinstance(a, Incons):
+        return a
     groups = {}
     for m in a:
         groups.setdefault((m.exps, m.dec), []).append(m)
@@ -143,8 +182,9 @@ def collapse(a):
 
 
 def mul(a, b):
-    if a is TOP or b is TOP:
-        return TOP
+    p = _prop(a, b)
+    if p is not None:
+        return TOP if p == "TOP" else p
     if len(a) * len(b) > MAXMONO:
         a, b = collapse(a), collapse(b)
         if len(a) * len(b) > MAXMONO * 4:
@@ -155,8 +195,9 @@ def mul(a, b):
 def div(a, b):
     """a / b; b must be a single monomial class up to facs/sign (all monomials of b must share
     exponents and decimal), otherwise TOP."""
-    if a is TOP or b is TOP:
-        return TOP
+    p = _prop(a, b)
+    if p is not None:
+        return TOP if p == "TOP" else p
     if not b:
         return TOP
     keys = {(m.exps, m.dec) for m in b}
@@ -165,6 +206,8 @@ def div(a, b):
         # split into real and imaginary part is lost (sign unknown, marker dropped)
         keys2 = {(m.drop(("j",)).exps, m.dec) for m in b}
         if len(keys2) != 1:
+            if all(m.facs for m in b):
+                return Incons(f"divisor is a sum of unlike terms {_classes(b)}")
             return TOP
         facs = frozenset().union(*[m.facs for m in b])
         any_b = next(iter(b)).drop(("j",))
@@ -179,8 +222,8 @@ def div(a, b):
 
 
 def power(a, k):
-    if a is TOP:
-        return TOP
+    if a is TOP or isinstance(a, Incons):
+        return a
     try:
         k = Fraction(k).limit_denominator(64)
     except Exception:
@@ -194,41 +237,43 @@ def power(a, k):
         return mul(c, c)
     if k == 1:
         return a
-    keys = {(m.exps, m.dec) for m in a}
+    keys = {(m.drop(("j",)).exps, m.dec) for m in a}
     if len(keys) == 1:
-        any_a = next(iter(a))
+        any_a = next(iter(a)).drop(("j",))
         facs = frozenset().union(*[m.facs for m in a])
         return frozenset([Mono(any_a.expd(), any_a.dec, 0, facs).pow(k)])
+    if k != int(k) and all(m.facs for m in a):
+        return Incons(f"root of a sum of unlike terms {_classes(a)}")
     return TOP
 
 
 def absval(a):
-    if a is TOP:
-        return TOP
+    if a is TOP or isinstance(a, Incons):
+        return a
     return frozenset(m.drop(("j",)).with_sign(1) for m in a)
 
 
 def real_part(a):
     """Monomials without the imaginary marker (values of unknown complex structure have none
     and are returned unchanged)."""
-    if a is TOP:
-        return TOP
+    if a is TOP or isinstance(a, Incons):
+        return a
     if not any(m.exp("j") for m in a):
         return a
     return frozenset(m for m in a if m.exp("j") == 0)
 
 
 def imag_part(a):
-    if a is TOP:
-        return TOP
+    if a is TOP or isinstance(a, Incons):
+        return a
     if not any(m.exp("j") for m in a):
         return a
     return frozenset(m.drop(("j",)) for m in a if m.exp("j") == 1)
 
 
 def unknown_sign(a):
-    if a is TOP:
-        return TOP
+    if a is TOP or isinstance(a, Incons):
+        return a
     return frozenset(m.with_sign(0) for m in a)
 
 
@@ -283,6 +328,10 @@ _SUFFIX = [
 def column_shape(col: str, atom: str) -> FrozenSet[Mono]:
     if col == "parallel":
         return S(Mono({"par": 1}, facs=[atom]))
+    for extra in ("_table", "_char"):
+        # merge suffixes used by the code itself (suffixes=("", "_table"))
+        if col.endswith(extra):
+            col = col[: -len(extra)]
     for suf, dims, dec in _SUFFIX:
         if col.endswith(suf):
             return S(Mono(dims, Fraction(dec), 1, [atom]))
@@ -294,7 +343,8 @@ MW = {V: 1, A: 1}
 # ppc column shapes (per-unit columns carry the base-power degree)
 PPC_COLS = {
     ("bus", "PD"): (MW, 6, {}), ("bus", "QD"): (MW, 6, {}), ("bus", "GS"): (MW, 6, {}), ("bus", "BS"): (MW, 6, {}),
-    ("bus", "BASE_KV"): ({V: 1}, 3, {}), ("bus", "VM"): ({}, 0, {"vm": 1}), ("bus", "VA"): ({}, 0, {}),
+    ("bus", "BASE_KV"): ({V: 1}, 3, {}), ("bus_dc", "DC_BASE_KV"): ({V: 1}, 3, {}), ("bus_dc", "DC_VM"): ({}, 0, {"vm": 1}),
+    ("bus_dc", "DC_PD"): (MW, 6, {}), ("bus", "VM"): ({}, 0, {"vm": 1}), ("bus", "VA"): ({}, 0, {}),
     ("bus", "VMAX"): ({}, 0, {}), ("bus", "VMIN"): ({}, 0, {}),
     ("gen", "PG"): (MW, 6, {}), ("gen", "QG"): (MW, 6, {}), ("gen", "QMAX"): (MW, 6, {}), ("gen", "QMIN"): (MW, 6, {}),
     ("gen", "PMAX"): (MW, 6, {}), ("gen", "PMIN"): (MW, 6, {}), ("gen", "VG"): ({}, 0, {}), ("gen", "MBASE"): (MW, 6, {}),
@@ -324,6 +374,8 @@ def base_power(atom: str):
 def describe(s) -> str:
     if s is TOP:
         return "TOP"
+    if isinstance(s, Incons):
+        return repr(s)
     if not s:
         return "0"
     return " + ".join(sorted(m.brief() for m in s))
